@@ -136,7 +136,7 @@ func detRunOnce(prog string) (outcome string, class string) {
 	}()
 	select {
 	case <-done:
-	case <-time.After(20 * time.Second):
+	case <-time.After(300 * time.Second):
 		os.Stdout = saved
 		return "TIMEOUT", "err"
 	}
@@ -258,21 +258,29 @@ func detSpawn(prog string, nproc, nrun int) ([][]string, string) {
 	}
 	outs := make([][]string, nproc)
 	var wg sync.WaitGroup
-	sem := make(chan struct{}, 10)
+	sem := make(chan struct{}, 4)
 	for j := 0; j < nproc; j++ {
 		wg.Add(1)
 		go func(j int) {
 			defer wg.Done()
 			sem <- struct{}{}
 			defer func() { <-sem }()
-			cmd := exec.Command(self, "detchild", strconv.Itoa(j%3), strconv.Itoa(nrun))
-			cmd.Stdin = strings.NewReader(prog)
+			// a child that dies (time-out on an overloaded machine) is retried once
 			var ob bytes.Buffer
-			cmd.Stdout = &ob
-			cmd.Stderr = io.Discard
-			tm := time.AfterFunc(120*time.Second, func() { cmd.Process.Kill() })
-			err := cmd.Run()
-			tm.Stop()
+			var err error
+			for attempt := 0; attempt < 2; attempt++ {
+				ob.Reset()
+				cmd := exec.Command(self, "detchild", strconv.Itoa(j%3), strconv.Itoa(nrun))
+				cmd.Stdin = strings.NewReader(prog)
+				cmd.Stdout = &ob
+				cmd.Stderr = io.Discard
+				tm := time.AfterFunc(900*time.Second, func() { cmd.Process.Kill() })
+				err = cmd.Run()
+				tm.Stop()
+				if err == nil {
+					break
+				}
+			}
 			if err != nil {
 				outs[j] = []string{"CHILD-FAILED " + err.Error() + " " + ob.String()}
 				return
@@ -465,7 +473,7 @@ func detGenerated(g *Gen, n int) [][2]string {
 
 func detGen(g *Gen) {
 	// runs per program = nproc fresh processes x nrun fresh interpreters in each
-	nproc, nrun, ngen := 4, 5, 40 // 20 runs
+	nproc, nrun, ngen := 4, 5, 30 // 20 runs
 	cproc, crun := 2, 4           // corpus files are long: 8 runs each in the quick tier
 	if g.Thorough() {
 		nproc, nrun, ngen = 25, 8, 300 // 200 runs
